@@ -18,7 +18,8 @@ THEOREMS = [
     "C14.resolve_spec_global", "C14.synced_fresh", "C14.registered_class_described", "C14.synced_pending_uncoloured",
     "C14.no_error_global", "C14.no_error_pal", "C14.setGlobal_reentrant_raises", "C14.sub_palette_fresh",
     "C14.single_conf_same", "C14.non_global_registration_inert", "C14.synced_follow_current_global",
-    "C14.nocolor_palette_registers", "C14.kept_palette_own_configuration",
+    "C14.nocolor_palette_registers", "C14.kept_palette_own_configuration", "C14.kept_entries_fixed",
+    "C14.nested_same_as_flat", "C14.builtin_kept", "C14.group_named_like_builtin",
 ]
 
 
@@ -751,7 +752,7 @@ def _oracle_walk(case, replies):
             # every synced palette registers its class in the configuration that becomes the global one
             # … and from now on the synced palettes show THIS configuration, whichever was the global one before
             if any(_nested_registration(classes, k, spec.registered) for k in synced):
-                raise _Unknown("re-entrant registration (reported separately, see SYNCED_PARENT_FINDING)")
+                raise _Unknown("re-entrant registration (outside observe_at, see SYNCED_PARENT_FINDING)")
             for k in synced:
                 register(k, spec)
             gspec = spec
@@ -838,7 +839,10 @@ SYNCED_PARENT_FINDING = ("set_global_colors_config(conf) raises AssertionError w
                          "none of them registered in conf yet: registering the parent modifies the global configuration, the nested "
                          "re-sync registers the class itself, and the outer register_in_colors_conf then hits "
                          "`assert src_obj not in self.registered_sources`")
-KNOWN = {"synced_parent_assert": lambda case: any(l.startswith("glob") for l in case["lines"])}
+# No KNOWN matcher for that shape: the AssertionError of set_global_colors_config with a synced palette whose parent class
+# is not registered yet was ruled OUTSIDE C14 (DESIGN.md section 10, C14, "Observed outside observe_at": the exception
+# is not one of the observables get_color / palette accessors / make_report) and has no entry in known_findings.json.
+# The oracle does not judge it (_Unknown above); the model reproduces it, so the correspondence still compares it.
 
 
 def _user_items(case):
@@ -963,13 +967,26 @@ def _gen_set(rng, tier):
             ids.append("T%d" % i)
     if rng.random() < 0.15:
         ids.append("TEXT")                   # a coloured default syntax: unknown and unresolved ids must differ
+    # ids BELOW an id that is described itself (a built-in syntax or an id of this set): written nested, the group is
+    # called like a syntax (`"WARN": {"SOFT": …}` next to the built-in / separately registered `WARN`)
+    under = {}
+    if rng.random() < 0.3:
+        for j in range(rng.choice([1, 1, 2])):
+            own = [x for x in ids if x.count(".") <= 1 and x not in under]
+            base = rng.choice(own) if own and rng.random() < 0.3 else rng.choice(_BUILTIN_IDS)
+            sid = base + "." + rng.choice(["CODE", "SHORT", "U%d" % j, "SUB.V%d" % j, "HINT"])
+            under[sid] = base
+            ids.append(sid)
     ids = list(dict.fromkeys(ids))
     depth, parent_of = {}, {}
     order = list(ids)
     rng.shuffle(order)                      # parents are chosen among ids earlier in this order: acyclic
     for pos, sid in enumerate(order):
         parent = None
-        if rng.random() < 0.65:
+        base = under.get(sid)
+        if base is not None and rng.random() < 0.6 and (base not in ids or (base in order[:pos] and depth[base] < 4)):
+            parent = base                    # … and refers to the syntax the group is called like
+        elif rng.random() < 0.65:
             cands = [p for p in order[:pos] if depth[p] < 4]
             extra = [b for b in _BUILTIN_IDS if b not in ids]
             pool = cands * 3 + extra[:3] + (["MISSING", "MISSING.Z"] if rng.random() < 0.3 else []) + \
@@ -1024,7 +1041,9 @@ def _probe_ids(items):
         p = d.split(":")[0]
         if _O_ID.match(p) and p not in _O_NAMES and p not in ids:
             parents.append(p)
-    return list(dict.fromkeys(ids + parents + ["TEXT", "NAME", "?unknown?"]))
+    # the syntax a group is called like (`WARN` for `WARN.SOFT`) is asked for as well
+    bases = [k.split(".")[0] for k in ids if "." in k and k.split(".")[0] in _BUILTIN_IDS]
+    return list(dict.fromkeys(ids + parents + bases + ["TEXT", "NAME", "?unknown?"]))
 
 
 def _history(rng, items, probes, no_color, kinds, every_step=True):
@@ -1134,6 +1153,19 @@ def corpus():
              "cls 1@%s none %s=%s %s" % (enc_str("Pal"), enc_str("b"), enc_str("B.ACCENT"), cfg_str({"B.ACCENT": "A.ACCENT:/BLUE"})),
              "new 0 " + cfg_str({"LOG.LEVEL": "B.ACCENT:underline"}), "pal 0 0", "pal 1 0"] +
             g("A.ACCENT", "B.ACCENT", "LOG.LEVEL") + ["rep"], "same-name-classes")
+    # groups called like a described syntax (built-in, explicit, registered later): nested and flat spelling of one set,
+    # the group in the constructor / in a component / in palette-class defaults
+    for spelled in ({"WARN": {"SOFT": "WARN:faint", "LOUD": {"X": "WARN.SOFT:no_faint,blink"}}, "OK": {"DONE": "OK:/g3"},
+                     "APP": "NUMBER:-", "KEYWORD": "CYAN"},
+                    {"WARN.SOFT": "WARN:faint", "WARN.LOUD.X": "WARN.SOFT:no_faint,blink", "OK.DONE": "OK:/g3",
+                     "APP": "NUMBER:-", "KEYWORD": "CYAN"}):
+        yield c(["new 0 " + cfg_str(spelled)] + g("WARN", "OK", "WARN.SOFT", "WARN.LOUD.X", "OK.DONE", "APP", "KEYWORD") +
+                ["reg %s %s" % (enc_str("comp"), cfg_str({"APP": {"TITLE": "APP:bold"}, "KEYWORD": {"SQL": "KEYWORD:underline"},
+                                                          "NUMBER": {"HEX": "NUMBER:/BLUE"}})),
+                 "cls 0 none %s=%s %s" % (enc_str("lvl"), enc_str("LOG.FATAL"),
+                                          cfg_str({"LOG": {"FATAL": "ERROR:blink"}, "ERROR": {"CODE": "WARN.SOFT:RED"}})),
+                 "pal 0 0"] + g("APP", "APP.TITLE", "KEYWORD", "KEYWORD.SQL", "NUMBER", "NUMBER.HEX", "ERROR", "ERROR.CODE",
+                                "LOG.FATAL", "NAME", "TEXT") + ["rep", "ids"], "group-named-like-id")
     # SYNCED_PARENT_FINDING: the model reproduces the AssertionError (correspondence only, the oracle does not judge it)
     yield c(["cls 0 none none " + cfg_str({"P1.X": "RED"}),
              "cls 1 0 %s=%s %s" % (enc_str("y"), enc_str("K.Y"), cfg_str({"K.Y": "P1.X:bold"})),
@@ -1646,6 +1678,36 @@ def nontrivial(case, replies):
     return case.get("meta", {}).get("depth", 1) >= 1 and any(r.startswith("ok 27") or "=27," in r for r in replies)
 
 
+def _groups(d, prefix=""):
+    """dotted paths of the dict-valued keys (groups) of a nested dictionary"""
+    for k, v in d.items():
+        if isinstance(v, dict):
+            yield prefix + k
+            yield from _groups(v, prefix + k + ".")
+
+
+def _group_tags(lines):
+    """groups called like a syntax that is described (built-in / elsewhere in the case), by the place of the group"""
+    dicts = []
+    for l in lines:
+        op, *args = l.split()
+        skip = {"new": 1, "reg": 1, "cls": 3}.get(op)
+        if skip is None and op != "add":
+            continue
+        d = parse_cfg(args[skip or 0:])
+        if d:
+            dicts.append(("constructor" if op == "new" else "palette-class" if op == "cls" else "later", d))
+    described = set(k for _, d in dicts for k, _ in o_flatten_quiet(d))
+    out = set()
+    for where, d in dicts:
+        for g in _groups(d):
+            if g in _BUILTIN_IDS:
+                out.add("group-named-like-id:built-in:" + where)
+            if g in described:
+                out.add("group-named-like-id:described-in-case:" + where)
+    return sorted(out)
+
+
 def tags(case, replies):
     m = case.get("meta", {})
     yield m.get("kind", "?")
@@ -1697,6 +1759,7 @@ def tags(case, replies):
                 cur -= 1
     if depth >= 2:
         yield "nested-dict-depth:%d" % (depth - 1 if depth <= 6 else 6)
+        yield from _group_tags(case["lines"])
     lines = case["lines"]
     seen = {}
     for l, r in zip(lines, replies):
@@ -1742,7 +1805,9 @@ def tags(case, replies):
 
 
 RULE = ("acyclic description sets of 1-6 (thorough: 2-8) ids, chains of depth <= 4 through own, built-in and unknown ids, flat and "
-        "nested dictionaries; every permutation of sets of <= 4 items (sampled above), random split between the constructor and "
+        "nested dictionaries, ids below an id that is described itself (a built-in syntax or an id of the set), so that the nested "
+        "spelling has a group called like a syntax - in the constructor, in components and in palette-class defaults, the "
+        "syntax itself being built-in, explicit or registered elsewhere (tags group-named-like-id:*); every permutation of sets of <= 4 items (sampled above), random split between the constructor and "
         "1-3 later registrations (add_new_items / register_color_conf_component / palette class defaults), queries after every "
         "registration; shadowed ids; palette classes with parent palettes; the configuration made the global one with synced "
         "palettes created before and after, batches of pending items only under a coloured default syntax; 2-3 configurations "
@@ -1759,7 +1824,16 @@ NOCOLOR_COMPOUND_NOTE = ("observation (not judged): CompoundPalette(conf, no_col
                          "that keeps the configuration it was first built for; get_sub_palette on it, when reached through another "
                          "configuration, registers the sub-palette class's SYNTAX_DEFAULTS in the FIRST configuration, not in the one "
                          "the caller passed (colours are unaffected: all no-colour). Input: cls 4+; new; new; pal 4 1; use 0; sub 4 2 1; rep")
-ASSUMPTIONS = ["ids equal (exact spelling) to a colour name, a gray/number colour or a modifier name are out of domain; case variants "
+ASSUMPTIONS = ["order independence (order_indep, and the oracle's re-registration in three other orders) is claimed only for sets "
+               "whose ids are pairwise distinct and distinct from the BUILT_IN_CONFIG ids, registered without palette creation. "
+               "Otherwise the split is meaningful by design: ColorsConfig({'NUMBER':'RED','X':'NUMBER:bold'}) makes X red+bold, "
+               "ColorsConfig({'X':'NUMBER:bold'}) + add_new_items({'NUMBER':'RED'}) makes X yellow+bold, because the built-in "
+               "NUMBER was registered first. That IS the statement ('items of the explicit configuration always win over defaults "
+               "registered later'; among defaults the first registration wins): the final set of descriptions differs between the "
+               "two histories, and each formatter is determined by its final set (final_set, explicit_wins, "
+               "first_registration_wins, same_set_same_colors hold without these restrictions; the oracle judges such ids "
+               "through the final set, or is silent where built-ins/components disagree)",
+               "ids equal (exact spelling) to a colour name, a gray/number colour or a modifier name are out of domain; case variants "
                "and other near-misses (red, Magenta, g24, Bold, RED_ …) are ordinary ids and are generated",
                "no-colour sub-palettes of compound palettes are exercised with one configuration only (see NOCOLOR_COMPOUND_NOTE)",
                "descriptions are ASCII; int() and str.strip() are modelled for ASCII input only",
@@ -1771,8 +1845,11 @@ LEVEL_TEXT = ("Kernel-checked for every history (any split of the descriptions b
               "the whole chain, '-' = terminal default, chain through an unknown or pending id = uncoloured, unknown id = default "
               "syntax) [resolve_spec, resolve_entries, resolve_fn, resolve_spec_global, closed_form: first non-empty colour slot "
               "along the chain]; the final set is first-registration-wins over explicit configuration, built-ins, later "
-              "registrations [final_set, explicit_wins, first_registration_wins]; permuting / re-batching registrations of distinct "
-              "ids changes no formatter [order_indep, same_set_same_colors]; uncoloured until the chain is complete, then fixed for "
+              "registrations [final_set, explicit_wins, first_registration_wins]; two states with the same final set give every id "
+              "the same formatter, whatever the histories [same_set_same_colors]; permuting / re-batching the registrations changes "
+              "no formatter for histories WITHOUT palette creation whose ids are pairwise distinct AND distinct from the "
+              "BUILT_IN_CONFIG ids [order_indep: hypotheses hnd, hp1/hp2] - for an id that is also built-in (or offered twice) the "
+              "split does matter, by design: explicit configuration > built-ins > first later registration (see ASSUMPTIONS); uncoloured until the chain is complete, then fixed for "
               "ever [unknown_then_known]; a palette obtained twice differs in an accessor only if its id was not settled the first "
               "time, and for a described id with an incomplete chain exactly when the registrations in between complete the chain "
               "to a visible effect [palette_twice, palette_after_palette, palette_unchanged: C10's late_resolution characterised]; "
@@ -1785,10 +1862,17 @@ LEVEL_TEXT = ("Kernel-checked for every history (any split of the descriptions b
               "several configurations taking turns as the global one the synced palettes show the configuration that is the global "
               "one NOW, and a registration into any other configuration (a former global one included) touches neither them nor "
               "the global index nor other configurations [synced_follow_current_global, non_global_registration_inert; "
-              "single_conf_same ties the one-configuration theorems to what the driver executes]; a no_color palette registers its "
-              "class in the configuration it is called with, every time [nocolor_palette_registers]; an operation leaves every "
-              "configuration it is not aimed at untouched, so a kept conf.get_palette() answers from its own configuration "
-              "whatever becomes the global one [kept_palette_own_configuration]. "
+              "single_conf_same ties the one-configuration theorems to what the driver executes]; after any case with any number of "
+              "configurations a no_color palette request P_k(conf_i, no_color=True) registers the class in configuration i and "
+              "leaves all its defaults described there, whatever the shared per-class no-colour palette already holds from "
+              "another configuration [nocolor_palette_registers, stated over runM/stepM]; the kept results of conf.get_palette() "
+              "are part of the state the driver executes (KWorld.kept, ops gpal/gread of stepK): no operation changes a kept entry, "
+              "an operation leaves every configuration it is not aimed at untouched, and reading a kept palette answers with the "
+              "accessor attributes as built and get_color(id) of the configuration it was obtained from - the global index does "
+              "not enter the answer [kept_palette_own_configuration, kept_entries_fixed]; a case depends on a (nested) dictionary only through "
+              "its flattened form and behaves exactly as with the flat spelling of the same items [nested_same_as_flat]; a built-in "
+              "syntax that is not an id of the flattened explicit configuration keeps its built-in description in every case, in "
+              "particular when the explicit configuration has a GROUP called like it [builtin_kept, group_named_like_builtin]. "
               "No exception and no fuel exhaustion on an explicit decidable domain: valid descriptions with an acyclic final set "
               "for histories without palettes [no_error, no_error_add, parsed_colors_accepted]; with palette classes, the global "
               "configuration and synced palettes when the class table is well-founded, all offered descriptions are valid with an "
